@@ -131,7 +131,11 @@ impl<'a> RtcpPacketWriter for UnknownBuilder<'a> {
 
         check_padding(self.padding)?;
 
-        Ok(Unknown::MIN_PACKET_LEN + self.data.len())
+        if self.data.len() % 4 != 0 {
+            return Err(RtcpWriteError::DataLen32bitMultiple(self.data.len()));
+        }
+
+        Ok(Unknown::MIN_PACKET_LEN + self.data.len() + self.padding as usize)
     }
 
     /// Write this Unknown packet data into `buf` without any validity checks.
